@@ -36,6 +36,7 @@ def snapshot(v, memo=None):
         if v.oid in memo:
             return memo[v.oid]
         n = ListV([], cls=v.cls, prefix=v.prefix)
+        n.view = getattr(v, "view", None)
         n.oid = v.oid
         memo[v.oid] = n
         n.items = [snapshot(x, memo) for x in v.items]
